@@ -22,7 +22,7 @@
 #![allow(unused_imports)] // XXX
 
 use crate::base::charstr::{CharStr, CharStrBuilder};
-use crate::base::name::{Name, ToName};
+use crate::base::name::{FromStrError, Name, ToName};
 use crate::base::wire::{Compose, Composer};
 use core::convert::{TryFrom, TryInto};
 use core::error;
@@ -980,8 +980,12 @@ where
             Some(token) => token,
             None => return Err(StrError::end_of_entry()),
         };
-        Name::from_symbols(Symbols::new(token.as_ref().chars()))
-            .map_err(|_| StrError::custom("invalid domain name"))
+        // `Symbols::with` also reports a malformed escape sequence, which
+        // merely ends a plain `Symbols` iterator.
+        Symbols::with(token.as_ref().chars(), |symbols| {
+            Name::from_symbols(symbols)
+        })
+        .map_err(|_: FromStrError| StrError::custom("invalid domain name"))
     }
 
     fn scan_charstr(&mut self) -> Result<CharStr<Self::Octets>, Self::Error> {
